@@ -137,3 +137,16 @@ Theorem C06_no_output_twice :
   NoDup (parked_of (st_coll (reach P ops)) ++ handed_in P init_state ops ++ dropped_inside_in P init_state ops).
 Proof. exact no_output_twice. Qed.
 Print Assumptions C06_no_output_twice.
+
+(** ... and for join_all / try_join_all, whose collected outputs wait in the cells of the output
+    buffer: parked (written cells) ++ handed out ++ dropped inside ≡ produced, for every history of
+    a join — the finishing call hands every cell out, the error path and Drop drop exactly the
+    written cells *)
+From FB Require Import JoinLedger.
+Theorem C06_join_outputs_ledger :
+  forall (P : params), params_ok P -> forall (ops : list op),
+  Forall join_op ops ->
+  Permutation (parked_k (st_coll (reach P ops)) ++ handed_in P init_state ops ++ dropped_inside_in P init_state ops)
+              (produced_in P init_state ops).
+Proof. exact join_token_ledger. Qed.
+Print Assumptions C06_join_outputs_ledger.
